@@ -41,7 +41,8 @@ structure SObj where
   cls : String
   /-- per parameter: (stored on the instance?, `getattr` value) -/
   values : List (String × Bool × SVal)
-  pcopies : List (String × Option (Int × Int) × Bool)
+  /-- per-instance Parameter copies: bounds, constant, the watchers of the attribute `bounds` -/
+  pcopies : List (String × Option (Int × Int) × Bool × List SWatcher)
   /-- per Selector parameter: (has its own Parameter copy?, the objects it lists, the values of its names) —
   those of the instance's copy if there is one, else those of the class Parameter -/
   sel : List (String × Bool × List Int × List Int)
@@ -89,6 +90,7 @@ def childrenOf (w : World) (o : Nat) : List Nat :=
       let ofW : Watcher → List Nat := fun wt => [wt.inst, wt.fn.owner]
       c.params.flatMap (fun d => ofVal (w.getVal o d.name)) ++
       c.params.flatMap (fun d => ((lookup ob.watchers d.name).getD []).flatMap ofW) ++
+      c.params.flatMap (fun d => (((lookup ob.pcopies d.name).map (·.swatchers)).getD []).flatMap ofW) ++
       c.methods.flatMap (fun m => ((lookup ob.dyn m.name).getD []).flatMap ofW)
 
 /-- depth-first preorder from `root` -/
@@ -127,7 +129,7 @@ def renderVal (w : World) (order corder : List Nat) : Val → SVal
   | .obj o => .obj (labelOf order o)
 
 def kindName : CKind → String
-  | .mcaller => "mcaller" | .bound => "bound"
+  | .mcaller => "mcaller" | .bound => "bound" | .partialFn => "partial"
 
 def renderObj (w : World) (order corder : List Nat) (o : Nat) : SObj :=
   match w.objs[o]? with
@@ -139,7 +141,10 @@ def renderObj (w : World) (order corder : List Nat) (o : Nat) : SObj :=
       { cls := c.name,
         values := c.params.filterMap (fun d => (w.getVal o d.name).map fun v =>
           (d.name, (lookup ob.values d.name).isSome, renderVal w order corder v)),
-        pcopies := c.params.filterMap (fun d => (lookup ob.pcopies d.name).map fun pc => (d.name, pc.bounds, pc.constant)),
+        pcopies := c.params.filterMap (fun d => (lookup ob.pcopies d.name).map fun pc =>
+          (d.name, pc.bounds, pc.constant, pc.swatchers.map fun wt =>
+            { inst := labelOf order wt.inst, kind := kindName wt.fn.kind, owner := labelOf order wt.fn.owner,
+              method := wt.fn.method, changed := wt.fn.changed, precedence := wt.precedence })),
         sel := c.params.filterMap (fun d =>
           if d.sel = .notSel then Option.none else
           match (lookup ob.pcopies d.name).bind (·.slots), w.clsSlot ob.cls d.name with
@@ -194,9 +199,9 @@ def watcherOKB (no : Nat) (wt : Watcher) : Bool := decide (wt.inst < no) && deci
 def objOKB (no nc : Nat) (ob : Obj) : Bool :=
   ob.values.all (fun kv => valOKB no nc kv.2) && ob.attrs.all (fun kv => valOKB no nc kv.2) &&
   ob.watchers.all (fun kv => kv.2.all (watcherOKB no)) && ob.dyn.all (fun kv => kv.2.all (watcherOKB no)) &&
-  ob.pcopies.all (fun kv => match kv.2.slots with
+  ob.pcopies.all (fun kv => (match kv.2.slots with
     | some s => decide (s.1 < nc) && decide (s.2 < nc)
-    | Option.none => true)
+    | Option.none => true) && kv.2.swatchers.all (watcherOKB no))
 
 /-- every reference of every object points into the world -/
 def wfB (w : World) : Bool := w.objs.all (objOKB w.objs.length w.cells.length)
